@@ -25,58 +25,90 @@ GUARD, DW = 0, 1
 def gen_seq_case(rng, malformed):
     n = rng.choice([3, 3, 4, 5])
     running = set(range(n))
+    suspended = set()
     parent = {}            # child -> parent
     has_child = set()
-    restartable = set(range(n))
     nxt = n
     ops = []
     for _ in range(rng.choice([5, 8, 12, 18, 26])):
         r = rng.random()
         alive = sorted(running)
+        active = sorted(running - suspended)
         every = list(range(nxt))
         if malformed and r < 0.5:
             k = rng.choice(["watch", "unwatch", "stop", "poison", "passivate"])
             if k in ("watch", "unwatch"):
                 w, a = rng.choice(every), rng.choice(every)
-                if w != a:
+                if w != a and related_ok(w, a, parent):
                     ops.append({"op": k, "w": w, "a": a})
             else:
                 a = rng.choice(every)
+                if a in suspended:
+                    continue
                 if k == "passivate" and (a in parent or a not in running):
                     k = "stop"      # only top-level actors carry a passivation strategy in the harness
                 ops.append({"op": k, "a": a})
                 stop_model(a, running, parent, has_child)
             continue
-        if r < 0.40 and len(alive) >= 2:
+        if r < 0.38 and len(alive) >= 2:
             w, a = rng.sample(alive, 2)
-            ops.append({"op": "watch", "w": w, "a": a})
-        elif r < 0.55 and len(alive) >= 2:
+            if related_ok(w, a, parent):
+                ops.append({"op": "watch", "w": w, "a": a})
+        elif r < 0.52 and len(alive) >= 2:
             w, a = rng.sample(alive, 2)
             ops.append({"op": "unwatch", "w": w, "a": a})
-        elif r < 0.72 and alive:
-            a = rng.choice(alive)
+        elif r < 0.68 and active:
+            a = rng.choice(active)
             ops.append({"op": rng.choice(["stop", "stop", "poison", "passivate"] if a not in parent else ["stop", "poison"]), "a": a})
             stop_model(a, running, parent, has_child)
-        elif r < 0.84:
-            cand = [a for a in alive if a in restartable and a not in has_child and a not in parent]
+        elif r < 0.78:
+            cand = [a for a in active if a not in has_child and a not in parent]
             if cand:
                 ops.append({"op": "restart", "a": rng.choice(cand)})
-        elif r < 0.92 and alive and nxt < n + 3:
-            p = rng.choice(alive)
+        elif r < 0.85 and active and nxt < n + 3:
+            p = rng.choice(active)
             ops.append({"op": "spawnchild", "w": p, "a": nxt})
             parent[nxt] = p
             has_child.add(p)
             running.add(nxt)
             nxt += 1
+        elif r < 0.93:
+            if suspended and rng.random() < 0.5:
+                a = rng.choice(sorted(suspended))
+                ops.append({"op": "reinstate", "a": a})
+                suspended.discard(a)
+            else:
+                cand = [a for a in active if a not in parent and a not in has_child]
+                if cand:
+                    a = rng.choice(cand)
+                    ops.append({"op": "suspend", "a": a})
+                    suspended.add(a)
         elif len(alive) >= 2:
             w, a = rng.sample(alive, 2)
-            ops.append({"op": "watch", "w": w, "a": a})
-    # at the end stop everything that still runs, one by one: every pending watch is resolved
+            if related_ok(w, a, parent):
+                ops.append({"op": "watch", "w": w, "a": a})
+    # at the end reinstate and stop everything that still runs, one by one: every pending watch is resolved
+    for a in sorted(suspended):
+        ops.append({"op": "reinstate", "a": a})
     for a in sorted(running, reverse=rng.random() < 0.5):
         if a in running:
             ops.append({"op": "stop", "a": a})
             stop_model(a, running, parent, has_child)
     return {"n": n, "ops": ops}
+
+
+def related_ok(w, a, parent):
+    """children of one parent are stopped in parallel by the parent's shutdown: a watch between two actors of the
+    same subtree that are not on one ancestor line has a schedule-dependent outcome there, so it is not generated"""
+    def line(x):
+        l = [x]
+        while l[-1] in parent:
+            l.append(parent[l[-1]])
+        return l
+    lw, la = line(w), line(a)
+    if lw[-1] != la[-1]:
+        return True
+    return w in la or a in lw
 
 
 def stop_model(a, running, parent, has_child):
@@ -150,6 +182,7 @@ def oracle_seq(case, out):
     """bookkeeping of the user's calls only. returns list of (signature, text)"""
     n = case["n"]
     running = set(range(n))
+    suspended = set()
     watching = {i: {} for i in range(n)}   # watcher -> {watchee: restarted_since (bool)}
     children = {}
     got = {i: [] for i in range(n)}        # Terminated seen so far
@@ -169,7 +202,8 @@ def oracle_seq(case, out):
             running.discard(a)
             for w in sorted(running):
                 if a in watching.get(w, {}):
-                    expect.setdefault(w, []).append((a, watching[w][a]))
+                    if w not in suspended:       # "every watcher that is still running"
+                        expect.setdefault(w, []).append((a, watching[w][a]))
                     del watching[w][a]
         kind = op["op"]
         if kind == "watch":
@@ -189,6 +223,10 @@ def oracle_seq(case, out):
                 running.add(a)
                 for x in watching.get(a, {}):
                     watching[a][x] = True   # it never called UnWatch: by the statement it still watches
+        elif kind == "suspend":
+            suspended.add(op["a"])
+        elif kind == "reinstate":
+            suspended.discard(op["a"])
         elif kind == "spawnchild":
             p, c = op["w"], op["a"]
             if p in running and not steps[k + 1].get("err"):
@@ -252,6 +290,10 @@ def coq_seq_cases(pairs):
                 ops.append("OStop %d" % cid(op["a"]))
             elif k == "restart":
                 ops.append("ORestart %d" % cid(op["a"]))
+            elif k == "suspend":
+                ops.append("OSuspend %d" % cid(op["a"]))
+            elif k == "reinstate":
+                ops.append("OReinstate %d" % cid(op["a"]))
             else:
                 ops.append("OSpawnChild %d %d" % (cid(op["w"]), cid(op["a"])))
         obs = []
@@ -288,6 +330,10 @@ From GV Require Import C10.Model.
 Open Scope nat_scope.
 Fixpoint list_eqb {A} (eq : A -> A -> bool) (x y : list A) : bool :=
   match x, y with [] , [] => true | a :: x', b :: y' => eq a b && list_eqb eq x' y' | _, _ => false end.
+(* siblings are stopped in parallel: the order in which their Terminated reach a common watcher is not fixed *)
+Definition count (x : nat) (l : list nat) : nat := length (filter (Nat.eqb x) l).
+Definition multiset_eqb (l1 l2 : list nat) : bool :=
+  Nat.eqb (length l1) (length l2) && forallb (fun x => Nat.eqb (count x l1) (count x l2)) l1.
 Definition onat_eqb (a b : option nat) : bool :=
   match a, b with Some x, Some y => Nat.eqb x y | None, None => true | _, _ => false end.
 
@@ -297,7 +343,7 @@ Definition aobs_ok (s : sys) (o : aobs) : bool :=
   match o with (i, run, intree, wrs, wes, term) =>
     Bool.eqb (is_running s i) run && Bool.eqb (has (tr s) i) intree
     && same_set (watchers_of (tr s) i) wrs && same_set (watchees_of (tr s) i) wes
-    && list_eqb Nat.eqb (terminated_for s i) term end.
+    && multiset_eqb (terminated_for s i) term end.
 Definition scase : Type := (nat * nat * list sop * list (list aobs))%%type.
 Fixpoint states_ok (ss : list sys) (obs : list (list aobs)) : bool :=
   match ss, obs with
@@ -350,7 +396,7 @@ def fmt_ops(ops, limit=30):
             return "%d.%s(%d)" % (op["w"], "Watch" if k == "watch" else "UnWatch", op["a"])
         if k == "spawnchild":
             return "%d.SpawnChild(%d)" % (op["w"], op["a"])
-        return "%s(%d)" % ({"stop": "Shutdown", "poison": "PoisonPill", "passivate": "passivate", "restart": "Restart"}[k], op["a"])
+        return "%s(%d)" % ({"stop": "Shutdown", "poison": "PoisonPill", "passivate": "passivate", "restart": "Restart", "suspend": "suspend", "reinstate": "reinstate"}[k], op["a"])
     return "; ".join(f(o) for o in ops[:limit]) + (" ..." if len(ops) > limit else "")
 
 
